@@ -22,6 +22,7 @@ type memConn struct {
 	rdl      time.Time
 	timer    *time.Timer
 	stalled  bool // writes block while stalled (a peer that stopped reading)
+	waiting  int  // broker goroutines currently blocked in Read
 }
 
 type memAddr struct{}
@@ -60,8 +61,17 @@ func (m *memConn) Read(b []byte) (int, error) {
 		if !m.rdl.IsZero() && !time.Now().Before(m.rdl) {
 			return 0, timeoutErr{}
 		}
+		m.waiting++
 		m.cond.Wait()
+		m.waiting--
 	}
+}
+
+// ReaderBlocked reports whether a broker goroutine is blocked in Read with nothing to read.
+func (m *memConn) ReaderBlocked() bool {
+	m.mu.Lock()
+	defer m.mu.Unlock()
+	return m.waiting > 0 && len(m.in) == 0
 }
 
 func (m *memConn) Write(b []byte) (int, error) {
